@@ -19,6 +19,7 @@
 #include <xercesc/util/XMLUni.hpp>
 #include <xercesc/parsers/XercesDOMParser.hpp>
 #include <xercesc/sax/HandlerBase.hpp>
+#include <xercesc/sax/EntityResolver.hpp>
 #include <xercesc/util/PlatformUtils.hpp>
 #include <xercesc/util/TransService.hpp>
 #include <xercesc/util/XMLMutexMgr.hpp>
@@ -240,6 +241,35 @@ static std::string parse_with_pool_psvi(const char* doc) {
     }
     return h.log;
 }
+// parsers that try to ADD to the locked pool: cacheGrammarFromParse is legal on a locked pool (the pool declines, the grammar stays with the parser),
+// so two threads that each bring their own schema document for the SAME new namespace must neither touch the pool's registry nor see each other's grammar
+struct MemResolver : public EntityResolver {
+    const char* name; const char* text;
+    InputSource* resolveEntity(const XMLCh* const, const XMLCh* const systemId) override {
+        std::string s = narrow16(systemId);
+        if (s.size() >= strlen(name) && s.compare(s.size() - strlen(name), strlen(name), name) == 0) return new MemBufInputSource((const XMLByte*)text, strlen(text), name);
+        return 0;
+    }
+};
+static std::string parse_caching_on_locked_pool(const char* doc, const char* xsdName, const char* xsdText) {
+    SAX2XMLReaderImpl p(XMLPlatformUtils::fgMemoryManager, g_pool);
+    Sax2CountH h; MemResolver er; er.name = xsdName; er.text = xsdText;
+    p.setContentHandler(&h); p.setErrorHandler(&h); p.setEntityResolver(&er);
+    p.setFeature(XMLUni::fgSAX2CoreNameSpaces, true);
+    p.setFeature(XMLUni::fgSAX2CoreValidation, true);
+    p.setFeature(XMLUni::fgXercesSchema, true);
+    p.setFeature(XMLUni::fgXercesCacheGrammarFromParse, true);
+    for (int round = 0; round < 2; round++) {   // the second parse of the same document must find the same grammar situation
+        MemBufInputSource s((const XMLByte*)doc, strlen(doc), "doc.xml");
+        try { p.parse(s); } catch (const XMLException& e) { h.log += "[X:" + narrow16(e.getMessage()) + "]"; } catch (...) { h.log += "[X?]"; }
+        h.log += "#";
+    }
+    return h.log;
+}
+static const char* XSD_B1 = "<xs:schema xmlns:xs='http://www.w3.org/2001/XMLSchema' targetNamespace='urn:nb' elementFormDefault='qualified'><xs:element name='r' type='xs:int'/></xs:schema>";
+static const char* XSD_B2 = "<xs:schema xmlns:xs='http://www.w3.org/2001/XMLSchema' targetNamespace='urn:nb' elementFormDefault='qualified'><xs:element name='r' type='xs:string'/></xs:schema>";
+static std::string s15_a() { return parse_caching_on_locked_pool("<r xmlns='urn:nb' xmlns:xsi='http://www.w3.org/2001/XMLSchema-instance' xsi:schemaLocation='urn:nb b1.xsd'>42</r>", "b1.xsd", XSD_B1); }
+static std::string s15_b() { return parse_caching_on_locked_pool("<r xmlns='urn:nb' xmlns:xsi='http://www.w3.org/2001/XMLSchema-instance' xsi:schemaLocation='urn:nb b2.xsd'>hello</r>", "b2.xsd", XSD_B2); }
 static std::string parse_plain(const char* doc) {
     SAXParser p;
     CountH h;
@@ -400,6 +430,7 @@ static std::vector<Scenario> SCENARIOS = {
     {"named-transcoders", "first use of named transcoders (service mapping, ICU converters), decode and encode", {s9_a, s9_b}, false},
     {"private-schema-build", "two private parsers each build a schema grammar with a pattern facet and validate", {s10_a, s10_b}, false},
     {"shared-pool-schema-psvi", "two parsers with PSVI handlers validate against identity constraints, substitution groups, unions, xsi:type of one locked pool and walk its XSModel", {s13_a, s13_b}, true},
+    {"shared-pool-cache-from-parse", "two parsers with cacheGrammarFromParse on one locked pool bring different schema documents for the same new namespace", {s15_a, s15_b}, true},
     {"regex-categories", "first use of the same lazily built regex character categories", {s1_a, s1_b}, false},
     {"regex-categories-3", "three threads, first use of categories and a block", {s1_a, s1_b, s1_c}, false},
     {"shared-pool-schema", "two parsers validate against the same complex type of one locked pool for the first time", {s2_a, s2_b}, true},
